@@ -62,6 +62,11 @@ def covered_images(case, lines):
     bad = []
     top = n + 3
     m2m_levels, l2l_levels = [], []
+    # beyond 3*10^5 image boxes the boxes are not enumerated one by one: the transfer windows are compared with the
+    # windows of the statement (level 3: [-3,2]^D, or [-3,3]^D when n = 0; above: [-2,3]^D; minus [-1,1]^D) and only
+    # the number of boxes is accumulated — by C10_cover / C10_disjoint these windows tile the interval exactly
+    big = (6 * (1 << n)) ** D > 300000
+    nbig = 3 ** D
     for ln in lines:
         if not ln.startswith("CT "):
             continue
@@ -92,10 +97,20 @@ def covered_images(case, lines):
                 o = dec7(D, code)
                 if all(abs(x) <= 1 for x in o):
                     bad.append(("C10:top-adjacent", "top tree transfer at level %d includes an adjacent super-box (offset %r)" % (l, o)))
-                for rr in itertools.product(range(w), repeat=D):
-                    imgs[tuple(o[d] * w + rr[d] for d in range(D))] += 1
+                if not big:
+                    for rr in itertools.product(range(w), repeat=D):
+                        imgs[tuple(o[d] * w + rr[d] for d in range(D))] += 1
+            if big:
+                lo, hi = ((-3, 3) if n == 0 else (-3, 2)) if l == 3 else (-2, 3)
+                expect = sorted(o for o in itertools.product(range(lo, hi + 1), repeat=D) if not all(abs(x) <= 1 for x in o))
+                got = sorted(tuple(dec7(D, code)) for _, code in items)
+                if got != expect:
+                    bad.append(("C10:top-window", "top tree transfer at level %d covers the offsets %r..., the statement's window is %r..." % (l, got[:3], expect[:3])))
+                nbig += len(items) * w ** D
     if sorted(m2m_levels, reverse=True) != list(range(top, 2, -1)) or sorted(l2l_levels) != list(range(3, top + 1)):
         bad.append(("C10:top-levels", "top tree visits levels M2M %r / L2L %r, expected %d..3 and 3..%d" % (m2m_levels, l2l_levels, top, top)))
+    if big:
+        return collections.Counter({"boxes": nbig}), bad
     return imgs, bad
 
 
